@@ -20,6 +20,7 @@ type PredGen struct {
 	FloatEq   bool // allow = / != between float operands
 	NoRegex   bool
 	NoKeyPin  bool // do not generate key-pinning atoms (opaque predicates only)
+	PadInts   bool // integer literals are written with a leading zero (010 is ten)
 	ForceKind int  // > 0: the first atom generated is of this kind (12..19: the key-region constructs)
 }
 
@@ -124,7 +125,11 @@ func (g *PredGen) Str(depth int) *Node {
 }
 
 func (g *PredGen) intLit() *Node {
-	return Int(int64([]int{0, 1, 2, 3, 5, 7, 10, 12, 25, 100}[g.R.Intn(10)]))
+	i := int64([]int{0, 1, 2, 3, 5, 7, 10, 12, 25, 100}[g.R.Intn(10)])
+	if g.PadInts && i > 5 {
+		return IntPadded(i, len(strconv.FormatInt(i, 10))+1+int(i%2))
+	}
+	return Int(i)
 }
 
 // Num returns a number-typed expression. wantFloat steers towards floats.
